@@ -37,3 +37,9 @@ claim('C11',
       'Rc::get_mut; every peek()-guarded loop makes progress; Range::len is sign-symmetric as a symbolic linear form with clamped '
       'numerators and Range::empty compares in the direction of the step; infinite streams declare it and len maps that to inf.',
       'per-impl decision table from MIR return origins + CFG progress queries + symbolic linear forms')
+claim('C10',
+      'Decides structural clauses, not the clamp arithmetic: every positional payload access in the read/write/remove/slice functions '
+      'takes its position from one of the shared normalisers (value-origin dataflow), accessor builtins are the documented index/slice '
+      'expressions, all six sequence kinds are handled explicitly with byte-indexed strings, machine arithmetic on user indices is '
+      'sign-guarded or reviewed, prefix iteration of streams requires non-negative bounds, bad indices raise.',
+      'value-origin dataflow over MIR + accessor decision table + assert census with sign-guard dominance')
